@@ -227,7 +227,7 @@ pub fn gen_step(s: &mut Pool2, rng: &mut Rng, ctx: &mut Ctx) -> Step {
             Op::Swap { side, amount, belief, max_spread, to }
         }
         3 => Op::Collect,
-        4 if rng.chance(1, 4) => Op::SetCollector { second: rng.chance(1, 2) },
+        4 if rng.chance(1, 4) => Op::SetCollector { second: rng.chance(1, 2), to_pool: rng.chance(1, 4) },
         4 => {
             // reuse the fee generator through a scratch cfg
             let mut r2 = Rng::new(rng.next_u64());
